@@ -448,11 +448,14 @@ def run(chk):
                 'reifiable roles, -of spellings, plain roles, re-entrancies, alignments, variables/constants _ _2, plus trees '
                 'around collapsible nodes), hand-built without any marker (gen.random_connected_graph over str constants, concepts '
                 'partly dereifiable, extra nodes shaped like reified relations, shuffled triples, explicit top among the variables '
-                'or None), edited (decoded, then 1-3 triples removed/added with the markers kept) x programs = every sequence of '
+                'or None), edited (decoded, then 1-3 triples removed/added with the markers kept, or the parent of an inverted branch '
+                'deleted and the top moved to the child = stale Push, F29) x programs = every sequence of '
                 '<= 3 (quick) / <= 4 (thorough) transforms {reify_edges, dereify_edges, reify_attributes, indicate_branches} with '
                 'indicate_branches at most once: all CLI-order subsequences for every graph plus a random sample (quick) / all '
                 '(thorough) of the other orders x models {default, AMR live, mini-AMR, random tables incl. ambiguous ones}. '
-                'A case is distinct per (model, graph, program) and non-trivial when the program changes the triples.')
+                'A case is distinct per (model, graph, program) and non-trivial when the program changes the triples. The round trip is '
+                'judged up to the single deinversion of edges, and only under the C06 hypotheses (deinverting model, plain roles, '
+                'every Push names a variable); all other clauses are judged on every wf connected non-empty graph.')
     chk.require_theorems('Properties.C12', THEOREMS)
     chk.assumptions.append('connectivity is proved for the declarative notion connectedP; the boolean procedure connected_b '
                            'is proved sound, not complete')
@@ -474,7 +477,8 @@ def run(chk):
     def programs():
         return cli + (rng.sample(other, nother) if quick else other)
 
-    n_tab, scale = (120, 1) if quick else (400, 3)
+    # thorough runs ALL 262 programs per graph (quick: 14 + 8), so the number of graphs grows only mildly
+    n_tab, scale = (160, 1.5) if quick else (240, 2)
     tables = []
     for i in range(n_tab):
         tbl = c11.rich_table(rng) if i % 2 else models.random_table(rng)
@@ -493,7 +497,7 @@ def run(chk):
     for text in named:
         jobs.append(('amr', 'decoded', text, 0, cli + other if not quick else cli + other[:40]))
     for inf, n in plan:
-        n *= scale
+        n = int(n * scale)
         for _ in range(n):
             jobs.append((inf.name, 'decoded', c11.random_node(rng, inf), 0, programs()))
         for _ in range(n // 3):
